@@ -2,6 +2,6 @@ package main
 
 func init() {
 	plans["C28"] = Plan{Pkg: pkg("C28"), Steps: []Step{
-		{Run: "TestMonitor", Quick: 96, Thorough: 2400, QShards: 16, TShards: 16},
+		{Run: "TestMonitor", Quick: 160, Thorough: 2400, QShards: 16, TShards: 16},
 	}}
 }
